@@ -169,11 +169,14 @@ def run(ctx, chk):
                 n += 1
                 arg = ef['args'][0]
                 good = False
-                if snaps and arg[0] == 'ref':
-                    base = arg[1][0]
+                if snaps:
                     sk, sef = snaps[-1]
                     want = payload(T('call', sef['callee'], sk, *sef['args']), 'Ok')
-                    good = base[0] == 'S' and base[1] == want and sk < k and 'reader' in fmt(sef['args'][0])
+                    # the reference snapshot() returned, re-borrowed (`&*snap`) or handed on as it is (a combinator payload)
+                    same = (arg[0] == 'ref' and arg[1][0][0] == 'S' and arg[1][0][1] == want and not arg[1][1]) or arg == want
+                    owner = sef['args'][0]
+                    own_reader = owner[0] == 'ref' and owner[1][0][0] == 'S' and bool(owner[1][1])     # a field of the client / context
+                    good = same and sk < k and own_reader
                 chk.ob('C01.W3', '%s:now-on-own-snapshot' % name, good, ef['site'][2], 'now() is evaluated on %s' % fmt(arg)[:80])
         chk.floor('C01.W3', '%s client now() call sites' % name, n, 1)
     # ---------------------------------------------------------------- W4 one path
